@@ -29,7 +29,8 @@ class BH:
         return [l for l in range(len(b.locals)) if b.local_ty(l).get("def") == PERMIT]
 
     def permit_bindings(self, b):
-        """blocks where a permit value first materialises: `P = move (X as Ok).0` (payload of an acquire result)"""
+        """blocks where a permit value first materialises: `P = move (X as Ok).0` (payload of an acquire result), or
+        `(X as Some).0` of such a result turned into an Option (`try_acquire_owned().ok()`)"""
         out = []
         pls = set(self.permit_locals(b))
         for i, blk in enumerate(b.blocks):
@@ -39,7 +40,7 @@ class BH:
                 src = s["rv"]["op"].get("move") or s["rv"]["op"].get("copy")
                 if src is None or not src["p"]:
                     continue
-                if any(isinstance(e, dict) and e.get("v") == "Ok" for e in src["p"]):
+                if any(isinstance(e, dict) and e.get("v") in ("Ok", "Some") for e in src["p"]):
                     out.append((i, j, s["lhs"]["l"]))
         return out
 
